@@ -1047,7 +1047,7 @@ func (p *BinaryProtocol) ReadAnyWithDesc(desc *TypeDescriptor, byteAsUint8 bool,
 		if et.Type() != elemType {
 			return nil, errDismatchPrimitive
 		}
-		ret := make([]interface{}, 0, size)
+		ret := make([]interface{}, 0, p.sizeHint(size))
 		for i := 0; i < size; i++ {
 			v, e := p.ReadAnyWithDesc(et, byteAsUint8, copyString, disallowUnknonw, useFieldName)
 			if e != nil {
@@ -1067,7 +1067,7 @@ func (p *BinaryProtocol) ReadAnyWithDesc(desc *TypeDescriptor, byteAsUint8 bool,
 			return nil, errDismatchPrimitive
 		}
 		if keyType == STRING {
-			m := make(map[string]interface{}, size)
+			m := make(map[string]interface{}, p.sizeHint(size))
 			for i := 0; i < size; i++ {
 				kv, e := p.ReadString(false)
 				if e != nil {
@@ -1081,7 +1081,7 @@ func (p *BinaryProtocol) ReadAnyWithDesc(desc *TypeDescriptor, byteAsUint8 bool,
 			}
 			ret = m
 		} else if keyType.IsInt() {
-			m := make(map[int]interface{}, size)
+			m := make(map[int]interface{}, p.sizeHint(size))
 			for i := 0; i < size; i++ {
 				kv, e := p.ReadInt(keyType)
 				if e != nil {
@@ -1385,7 +1385,7 @@ func (p *BinaryProtocol) ReadAny(typ Type, strAsBinary bool, byteAsInt8 bool) (i
 		if e != nil {
 			return nil, e
 		}
-		ret := make([]interface{}, 0, size)
+		ret := make([]interface{}, 0, p.sizeHint(size))
 		for i := 0; i < size; i++ {
 			v, e := p.ReadAny(elemType, strAsBinary, byteAsInt8)
 			if e != nil {
@@ -1400,7 +1400,7 @@ func (p *BinaryProtocol) ReadAny(typ Type, strAsBinary bool, byteAsInt8 bool) (i
 			return nil, e
 		}
 		if keyType == STRING {
-			ret := make(map[string]interface{}, size)
+			ret := make(map[string]interface{}, p.sizeHint(size))
 			for i := 0; i < size; i++ {
 				k, e := p.ReadString(false)
 				if e != nil {
@@ -1414,7 +1414,7 @@ func (p *BinaryProtocol) ReadAny(typ Type, strAsBinary bool, byteAsInt8 bool) (i
 			}
 			return ret, p.ReadMapEnd()
 		} else if keyType.IsInt() {
-			ret := make(map[int]interface{}, size)
+			ret := make(map[int]interface{}, p.sizeHint(size))
 			for i := 0; i < size; i++ {
 				k, e := p.ReadInt(keyType)
 				if e != nil {
@@ -1428,7 +1428,7 @@ func (p *BinaryProtocol) ReadAny(typ Type, strAsBinary bool, byteAsInt8 bool) (i
 			}
 			return ret, p.ReadMapEnd()
 		} else {
-			m := make(map[interface{}]interface{}, size)
+			m := make(map[interface{}]interface{}, p.sizeHint(size))
 			for i := 0; i < size; i++ {
 				k, e := p.ReadAny(keyType, strAsBinary, byteAsInt8)
 				if e != nil {
@@ -2034,6 +2034,15 @@ func (p *BinaryProtocol) WriteAnyWithDesc(desc *TypeDescriptor, val interface{},
 	default:
 		return errUnsupportedType
 	}
+}
+
+// sizeHint bounds an element count read from the wire by the bytes left in the buffer
+// (every element takes at least one byte), so that a corrupt header cannot trigger a huge allocation.
+func (p *BinaryProtocol) sizeHint(size int) int {
+	if left := p.Left(); size > left {
+		return left
+	}
+	return size
 }
 
 // next ...
